@@ -2,6 +2,7 @@
 //! addressing walk (see `vh::cfgwalk`).  stdin: one JSON object per line
 //!   {"toml": "...", "admin": ["SHOW DATABASES", ..]?, "probe": {...}?, "show": bool?}
 //!   {"op": "regex", "patterns": ["..", ..]}      -> {"ok": [bool, ..]}   (regex crate verdicts)
+//!   {"op": "tls", "paths": ["..", ..]}           -> {"certs": [bool..], "keys": [bool..]}  (load_certs / load_keys verdicts)
 //! stdout: one JSON object per line.  argv[1]: directory for the temporary config file.
 use serde_json::{json, Value};
 use std::io::{BufRead, Write};
@@ -39,6 +40,15 @@ fn main() {
                 .map(|a| a.iter().map(|p| regex::Regex::new(p.as_str().unwrap_or("")).is_ok()).collect())
                 .unwrap_or_default();
             json!({"ok": oks})
+        } else if case.get("op").and_then(|x| x.as_str()) == Some("tls") {
+            // the verdicts of the real loaders on files (file system and rustls_pemfile are environment)
+            let f = |k: &str, cert: bool| -> Vec<bool> {
+                case[k].as_array().map(|a| a.iter().map(|p| {
+                    let p = std::path::Path::new(p.as_str().unwrap_or(""));
+                    if cert { pgcat::tls::load_certs(p).is_ok() } else { pgcat::tls::load_keys(p).is_ok() }
+                }).collect()).unwrap_or_default()
+            };
+            json!({"certs": f("paths", true), "keys": f("paths", false)})
         } else {
             rt.block_on(vh::cfgwalk::run_config(&case, &path))
         };
